@@ -132,6 +132,8 @@ struct Items<I> {
     calls: i64,
     m: i64,
     hint: usize,
+    /// report an exact size hint (lower = upper = items left): the hint then equals the item count
+    exact: bool,
 }
 impl<I: Iterator> Iterator for Items<I> {
     type Item = I::Item;
@@ -143,7 +145,12 @@ impl<I: Iterator> Iterator for Items<I> {
         self.it.next()
     }
     fn size_hint(&self) -> (usize, Option<usize>) {
-        (self.hint, None)
+        if self.exact {
+            let left = self.hint.saturating_sub(self.calls.max(0) as usize);
+            (left, Some(left))
+        } else {
+            (self.hint, None)
+        }
     }
 }
 
@@ -177,6 +184,11 @@ fn items_of(x: &Value) -> Vec<Vec<u8>> {
     x.as_array()
         .map(|a| a.iter().map(|it| it.as_array().map(|b| b.iter().map(|v| v.as_u64().unwrap() as u8).collect()).unwrap_or_default()).collect())
         .unwrap_or_default()
+}
+fn spare_string(s: &str) -> String {
+    let mut t = String::with_capacity(s.len() + 64);
+    t.push_str(s);
+    t
 }
 fn units_of(x: &Value) -> Vec<u16> {
     x.as_array().map(|a| a.iter().map(|v| v.as_u64().unwrap_or(0) as u16).collect()).unwrap_or_default()
@@ -234,7 +246,7 @@ impl Pool {
         let plain = |names: &[&str]| -> Vec<(String, i64)> { if faulty && op.t == 1 { vec![] } else { names.iter().map(|n| (n.to_string(), 0)).collect() } };
         match op.op.as_str() {
             "from_str" => {
-                let mut v = plain(&["", "string", "ref_string", "box", "cow_b", "cow_o", "utf8", "utf8_unchecked", "tls_string"]);
+                let mut v = plain(&["", "string", "string_spare", "string_shortened", "ref_string", "box", "cow_b", "cow_o", "cow_o_spare", "utf8", "utf8_unchecked", "tls_string", "tls_string_spare"]);
                 if !faulty || op.t == 1 {
                     v.push(("fromstr".into(), 1));
                     v.push(("try_tls_string".into(), 1));
@@ -272,7 +284,11 @@ impl Pool {
             }
             "extend" => {
                 if op.v == "chars" {
-                    plain(&["chars", "ref_chars"])
+                    let mut v = plain(&["chars", "ref_chars"]);
+                    if op.n >= 0 && op.n as usize == items_of(&op.x).len() {
+                        v.extend(plain(&["chars_exact", "ref_chars_exact"]));
+                    }
+                    v
                 } else {
                     let mut v = plain(&["str", "string", "box", "cow"]);
                     if items_of(&op.x).iter().all(|i| i.len() <= 16) {
@@ -283,7 +299,11 @@ impl Pool {
             }
             "collect" => {
                 if op.v == "chars" {
-                    plain(&["chars", "ref_chars"])
+                    let mut v = plain(&["chars", "ref_chars"]);
+                    if op.n >= 0 && op.n as usize == items_of(&op.x).len() {
+                        v.extend(plain(&["chars_exact", "ref_chars_exact"]));
+                    }
+                    v
                 } else {
                     let mut v = plain(&["str", "string", "box", "cow"]);
                     if items_of(&op.x).iter().all(|i| i.len() <= 16) {
@@ -482,13 +502,13 @@ impl Pool {
             }
             "extend" => {
                 let items = items_of(&op.x);
-                let it = Items { it: items.iter().map(|b| s_of(b)), calls: 0, m: op.m, hint: 0 };
+                let it = Items { it: items.iter().map(|b| s_of(b)), calls: 0, m: op.m, hint: 0, exact: false };
                 ss[h].as_mut().unwrap().extend(it);
                 ok()
             }
             "collect" => {
                 let items = items_of(&op.x);
-                let it = Items { it: items.iter().map(|b| s_of(b)), calls: 0, m: op.m, hint: 0 };
+                let it = Items { it: items.iter().map(|b| s_of(b)), calls: 0, m: op.m, hint: 0, exact: false };
                 let s: String = it.collect();
                 ss[h] = Some(s);
                 ok()
@@ -556,6 +576,16 @@ impl Pool {
                 let v = match op.e.as_str() {
                     "" => LeanString::from(s),
                     "string" => LeanString::from(s.to_string()),
+                    // an owned argument whose capacity differs from its length must not matter
+                    "string_spare" => LeanString::from(spare_string(s)),
+                    "string_shortened" => {
+                        let mut t = String::from("this text used to be much longer than it is going to be now");
+                        t.clear();
+                        t.push_str(s);
+                        LeanString::from(t)
+                    }
+                    "cow_o_spare" => LeanString::from(Cow::<str>::Owned(spare_string(s))),
+                    "tls_string_spare" => spare_string(s).to_lean_string(),
                     "ref_string" => LeanString::from(&s.to_string()),
                     "box" => LeanString::from(s.to_string().into_boxed_str()),
                     "cow_b" => LeanString::from(Cow::Borrowed(s)),
@@ -796,17 +826,19 @@ impl Pool {
                 let m = op.m;
                 let s = self.ls[h].as_mut().unwrap();
                 let e = if op.e.is_empty() { if op.v == "chars" { "chars" } else { "str" } } else { op.e.as_str() };
+                let exact = e.ends_with("_exact");
+                let e = e.trim_end_matches("_exact");
                 match e {
-                    "chars" => s.extend(Items { it: items.iter().map(|b| s_of(b).chars().next().unwrap()), calls: 0, m, hint }),
+                    "chars" => s.extend(Items { it: items.iter().map(|b| s_of(b).chars().next().unwrap()), calls: 0, m, hint, exact }),
                     "ref_chars" => {
                         let cs: Vec<char> = items.iter().map(|b| s_of(b).chars().next().unwrap()).collect();
-                        s.extend(Items { it: cs.iter(), calls: 0, m, hint })
+                        s.extend(Items { it: cs.iter(), calls: 0, m, hint, exact })
                     }
-                    "str" => s.extend(Items { it: items.iter().map(|b| s_of(b)), calls: 0, m, hint }),
-                    "string" => s.extend(Items { it: items.iter().map(|b| s_of(b).to_string()), calls: 0, m, hint }),
-                    "box" => s.extend(Items { it: items.iter().map(|b| s_of(b).to_string().into_boxed_str()), calls: 0, m, hint }),
-                    "cow" => s.extend(Items { it: items.iter().map(|b| Cow::Borrowed(s_of(b))), calls: 0, m, hint }),
-                    "lean" => s.extend(Items { it: items.iter().map(|b| LeanString::from(s_of(b))), calls: 0, m, hint }),
+                    "str" => s.extend(Items { it: items.iter().map(|b| s_of(b)), calls: 0, m, hint, exact }),
+                    "string" => s.extend(Items { it: items.iter().map(|b| s_of(b).to_string()), calls: 0, m, hint, exact }),
+                    "box" => s.extend(Items { it: items.iter().map(|b| s_of(b).to_string().into_boxed_str()), calls: 0, m, hint, exact }),
+                    "cow" => s.extend(Items { it: items.iter().map(|b| Cow::Borrowed(s_of(b))), calls: 0, m, hint, exact }),
+                    "lean" => s.extend(Items { it: items.iter().map(|b| LeanString::from(s_of(b))), calls: 0, m, hint, exact }),
                     other => panic!("harness: unknown extend variant {other}"),
                 }
                 Out::Ok
@@ -816,17 +848,19 @@ impl Pool {
                 let hint = if op.v == "chars" { self.size_arg(op, false, pick) } else { 0 };
                 let m = op.m;
                 let e = if op.e.is_empty() { if op.v == "chars" { "chars" } else { "str" } } else { op.e.as_str() };
+                let exact = e.ends_with("_exact");
+                let e = e.trim_end_matches("_exact");
                 let v: LeanString = match e {
-                    "chars" => Items { it: items.iter().map(|b| s_of(b).chars().next().unwrap()), calls: 0, m, hint }.collect(),
+                    "chars" => Items { it: items.iter().map(|b| s_of(b).chars().next().unwrap()), calls: 0, m, hint, exact }.collect(),
                     "ref_chars" => {
                         let cs: Vec<char> = items.iter().map(|b| s_of(b).chars().next().unwrap()).collect();
-                        Items { it: cs.iter(), calls: 0, m, hint }.collect()
+                        Items { it: cs.iter(), calls: 0, m, hint, exact }.collect()
                     }
-                    "str" => Items { it: items.iter().map(|b| s_of(b)), calls: 0, m, hint }.collect(),
-                    "string" => Items { it: items.iter().map(|b| s_of(b).to_string()), calls: 0, m, hint }.collect(),
-                    "box" => Items { it: items.iter().map(|b| s_of(b).to_string().into_boxed_str()), calls: 0, m, hint }.collect(),
-                    "cow" => Items { it: items.iter().map(|b| Cow::Borrowed(s_of(b))), calls: 0, m, hint }.collect(),
-                    "lean" => Items { it: items.iter().map(|b| LeanString::from(s_of(b))), calls: 0, m, hint }.collect(),
+                    "str" => Items { it: items.iter().map(|b| s_of(b)), calls: 0, m, hint, exact }.collect(),
+                    "string" => Items { it: items.iter().map(|b| s_of(b).to_string()), calls: 0, m, hint, exact }.collect(),
+                    "box" => Items { it: items.iter().map(|b| s_of(b).to_string().into_boxed_str()), calls: 0, m, hint, exact }.collect(),
+                    "cow" => Items { it: items.iter().map(|b| Cow::Borrowed(s_of(b))), calls: 0, m, hint, exact }.collect(),
+                    "lean" => Items { it: items.iter().map(|b| LeanString::from(s_of(b))), calls: 0, m, hint, exact }.collect(),
                     other => panic!("harness: unknown collect variant {other}"),
                 };
                 self.ls[h] = Some(v);
